@@ -8,25 +8,25 @@ Import ListNotations.
 Open Scope Z_scope.
 
 Definition zs (l : list Z) : list N := map Z.to_N l.
-Definition hs (l : list string) : list (list byte) := map unhex l.
-
-(* the observed ClientHelloInfo, field order as in the engine's printer *)
-Definition O (version : Z) (random sid : string) (ciphers : list Z) (reneg_supported : bool)
-  (comp : string) (exts : list Z) (server_name : string) (ocsp : bool) (curves : list Z)
-  (points : string) (ticket_supported : bool) (ticket : string) (sigs sigs_cert : list Z)
-  (secure_reneg : string) (protos : list string) (scts : bool) (versions : list Z) (cookie : string)
-  (keyshares : list (Z * string)) (early : bool) (pskmodes : string)
-  (psk_ids : list (string * Z)) (binders : list string) : info :=
-  {| i_version := Z.to_N version; i_random := unhex random; i_session_id := unhex sid;
-     i_ciphers := zs ciphers; i_reneg_supported := reneg_supported; i_compression := unhex comp;
-     i_extensions := zs exts; i_server_name := unhex server_name; i_ocsp := ocsp; i_curves := zs curves;
-     i_points := unhex points; i_ticket_supported := ticket_supported; i_session_ticket := unhex ticket;
-     i_sigschemes := zs sigs; i_sigschemes_cert := zs sigs_cert; i_secure_reneg := unhex secure_reneg;
-     i_protos := hs protos; i_scts := scts; i_versions := zs versions; i_cookie := unhex cookie;
-     i_keyshares := map (fun e => (Z.to_N (fst e), unhex (snd e))) keyshares; i_early := early;
-     i_pskmodes := unhex pskmodes;
-     i_psk_ids := map (fun e => (unhex (fst e), Z.to_N (snd e))) psk_ids;
-     i_psk_binders := hs binders |}.
+(* the observed ClientHelloInfo, field order as in the engine's printer; byte strings are printed
+   as lists of byte constructors ([x16; x03; ...]), which Coq reads several times faster than
+   string literals *)
+Definition O (version : Z) (random sid : list byte) (ciphers : list Z) (reneg_supported : bool)
+  (comp : list byte) (exts : list Z) (server_name : list byte) (ocsp : bool) (curves : list Z)
+  (points : list byte) (ticket_supported : bool) (ticket : list byte) (sigs sigs_cert : list Z)
+  (secure_reneg : list byte) (protos : list (list byte)) (scts : bool) (versions : list Z) (cookie : list byte)
+  (keyshares : list (Z * list byte)) (early : bool) (pskmodes : list byte)
+  (psk_ids : list (list byte * Z)) (binders : list (list byte)) : info :=
+  {| i_version := Z.to_N version; i_random := random; i_session_id := sid;
+     i_ciphers := zs ciphers; i_reneg_supported := reneg_supported; i_compression := comp;
+     i_extensions := zs exts; i_server_name := server_name; i_ocsp := ocsp; i_curves := zs curves;
+     i_points := points; i_ticket_supported := ticket_supported; i_session_ticket := ticket;
+     i_sigschemes := zs sigs; i_sigschemes_cert := zs sigs_cert; i_secure_reneg := secure_reneg;
+     i_protos := protos; i_scts := scts; i_versions := zs versions; i_cookie := cookie;
+     i_keyshares := map (fun e => (Z.to_N (fst e), snd e)) keyshares; i_early := early;
+     i_pskmodes := pskmodes;
+     i_psk_ids := map (fun e => (fst e, Z.to_N (snd e))) psk_ids;
+     i_psk_binders := binders |}.
 
 Fixpoint list_eqb {A} (eq : A -> A -> bool) (a b : list A) : bool :=
   match a, b with
@@ -54,15 +54,15 @@ Definition info_eqb (a b : info) : bool :=
 
 Inductive c07case :=
 (* parseRawClientHello(raw) = obs *)
-| CParse (raw : string) (obs : info)
+| CParse (raw : list byte) (obs : info)
 (* supportedVersionsFromMax(maxv) = obs *)
 | CVersMax (maxv : Z) (obs : list Z)
 (* (MatchALPN cfg).Match(hello with SupportedProtos = protos) = obs *)
-| CAlpn (cfg protos : list string) (obs : bool)
+| CAlpn (cfg protos : list (list byte)) (obs : bool)
 (* MatchTLS{alpn: cfg (when use_alpn)}.Match on a connection holding exactly [p] prefetched bytes:
    verdict, whether the placeholders were set, and their values *)
-| CGate (p : string) (use_alpn : bool) (cfg : list string) (v : verdict) (set : bool)
-        (server_name : string) (version : Z).
+| CGate (p : list byte) (use_alpn : bool) (cfg : list (list byte)) (v : verdict) (set : bool)
+        (server_name : list byte) (version : Z).
 
 Definition opt_bytes_eqb (a : option (list byte)) (set : bool) (b : list byte) : bool :=
   match a with Some x => set && bytes_eqb x b | None => negb set end.
@@ -71,12 +71,12 @@ Definition opt_N_eqb (a : option N) (set : bool) (b : N) : bool :=
 
 Definition check (c : c07case) : bool :=
   match c with
-  | CParse raw obs => info_eqb (parse_hello (unhex raw)) obs
+  | CParse raw obs => info_eqb (parse_hello raw) obs
   | CVersMax m obs => ns_eqb (supported_versions_from_max (Z.to_N m)) (zs obs)
-  | CAlpn cfg protos obs => Bool.eqb (alpn_match (hs cfg) (hs protos)) obs
+  | CAlpn cfg protos obs => Bool.eqb (alpn_match cfg protos) obs
   | CGate p use_alpn cfg v set sn ver =>
-      let subs := fun i => if use_alpn then alpn_match (hs cfg) (i_protos i) else true in
-      let r := tls_match subs (unhex p) in
-      verdict_eqb (r_verdict r) v && opt_bytes_eqb (r_server_name r) set (unhex sn) &&
+      let subs := fun i => if use_alpn then alpn_match cfg (i_protos i) else true in
+      let r := tls_match subs p in
+      verdict_eqb (r_verdict r) v && opt_bytes_eqb (r_server_name r) set sn &&
       opt_N_eqb (r_version r) set (Z.to_N ver)
   end.
